@@ -1,5 +1,5 @@
 ---- MODULE Itp_Find ----
 (* instance wrapper for C11 (TLC evaluates zero-arity definitions eagerly: one module per instance) *)
 EXTENDS ItpRoundTripExport
-MCMols == MolsMassOnly(0) \cup MolsUnbacked(0)
+MCMols == TLCEval(MolsMassOnly(0) \cup MolsUnbacked(0))
 ====
